@@ -65,7 +65,7 @@ int main(int argc, char** argv) {
     T_DD(_mm256_unpacklo_pd) T_DD(_mm256_unpackhi_pd)
     T_DDD(_mm256_fmadd_pd) T_DDD(_mm256_fmsub_pd) T_DDD(_mm256_fmaddsub_pd) T_DDD(_mm256_fmsubadd_pd)
     IMM16(T_DDi, _mm256_shuffle_pd) IMM16(T_Di, _mm256_permute_pd) IMMP4(T_Di, _mm256_permute4x64_pd) IMMP2(T_DDi, _mm256_permute2f128_pd)
-    T_II(_mm256_add_epi64) T_II(_mm256_sub_epi64) T_II(_mm256_add_epi32) T_II(_mm256_mul_epu32) T_II(_mm256_and_si256) T_II(_mm256_or_si256) T_II(_mm256_xor_si256)
+    T_II(_mm256_add_epi64) T_II(_mm256_sub_epi64) T_II(_mm256_add_epi32) T_II(_mm256_mul_epu32) T_II(_mm256_mul_epi32) T_II(_mm256_and_si256) T_II(_mm256_or_si256) T_II(_mm256_xor_si256)
     T_II(_mm256_sllv_epi64) T_II(_mm256_srlv_epi64) T_II(_mm256_permutevar8x32_epi32) T_II(_mm256_unpacklo_epi32) T_II(_mm256_unpackhi_epi32)
     T_II(_mm256_unpacklo_epi64) T_II(_mm256_unpackhi_epi64)
     IMMP2(T_IIi, _mm256_permute2x128_si256)
